@@ -267,7 +267,19 @@ Qed.
 
 (* ---- Interface() --------------------------------------------------- *)
 
-Hypothesis AF : fu = false -> member_arrays_forward pj.
+(* since fix F19 NextElementBytes refuses a member whose open tag points backwards: the
+   element handed out never extends backwards, on any tape (this replaced the hypothesis
+   "array starts in member position point forward", which only Deserialize results met) *)
+Lemma NE_forward : forall o, cont_ok pj o ->
+  okP fu (fun r => ne_post pj o r /\
+                   match r with (_, Some (_, el, _)) => i_off el <= i_len el | _ => True end)
+      (next_element (cont_fuel o) pj o).
+Proof.
+  intros o Ho. eapply okP_strengthen; [apply (NE o Ho)|].
+  intros [o' x] E. split.
+  - pose proof (NE o Ho) as H. rewrite E in H. exact H.
+  - destruct x as [[[name el] ty]|]; [|exact I]. exact (next_element_forward _ _ _ _ _ _ _ E).
+Qed.
 
 Section IStep.
 Variable f : nat.
@@ -303,26 +315,16 @@ Proof.
   induction k as [|k IH]; intros ob acc lo Hok Hlo Hf Hk.
   { apply okP_fuel0. intros E. specialize (Hk E). lia. }
   cbn [imembers].
-  eapply okP_bind; [apply (NE ob Hok)|].
+  eapply okP_bind; [apply (NE_forward ob Hok)|].
   intros [ob' [[[name el] ty]|]]; [|intros; exact I].
-  unfold ne_post, el_post. intros (Hok' & Hlen' & E1 & E2 & E3 & E4 & E5 & E6 & E7 & E8 & E9).
+  unfold ne_post, el_post. intros ((Hok' & Hlen' & E1 & E2 & E3 & E4 & E5 & E6 & E7 & E8 & E9) & Hfwd0).
   pose proof (IHf el E1) as Hw.
   assert (Hmf : fu = false -> (m el + 1 < f)%nat).
   { intros E. specialize (Hf E). specialize (Hlo E). unfold m. lia. }
   specialize (Hw Hmf).
   destruct (interface_val f pj el) as [d| | |] eqn:Ew; cbn [okP obind] in *; auto.
   apply interface_val_ok_open in Ew.
-  (* when fuel is accounted for, the element does not extend backwards *)
-  assert (Hfw : fu = false -> i_off el <= i_len el).
-  { intros Efu. destruct (Z_lt_le_dec (i_len el) (i_off el)) as [Hb|Hb]; [|exact Hb]. exfalso.
-    destruct (E7 Hb) as [Hop Hcur].
-    assert (Ht : i_t el = TagArrayStart) by (apply Ew; [exact Hop|lia]).
-    destruct E8 as (w & Hw8 & Ht8 & Hc8). destruct E9 as (wl & Hw9 & Hb9).
-    pose proof Hok as [_ Hco].
-    assert (Hp : Z.to_nat (i_off el - 1) = S (Z.to_nat (i_off el - 2))) by lia.
-    rewrite Hp in Hw8.
-    pose proof (AF Efu _ _ _ Hw9 Hw8 Hb9) as Hfwd. rewrite <- Ht8 in Hfwd. specialize (Hfwd Ht).
-    rewrite <- Hc8 in Hfwd. lia. }
+  assert (Hfw : fu = false -> i_off el <= i_len el) by (intros _; exact Hfwd0).
   apply (IH ob' (map_set name d acc) lo); auto.
   - intros E. specialize (Hfw E). specialize (Hlo E). lia.
   - intros E. rewrite Hlen'. exact (Hf E).
@@ -439,15 +441,23 @@ Proof.
   intros o Ho. apply next_element_total'; assumption.
 Qed.
 
-Theorem interface_val_total pj fuel i : member_arrays_forward pj -> iter_ok pj i ->
+Theorem interface_val_total_any pj fuel i : iter_ok pj i ->
   (m i + 1 < fuel)%nat -> okP false top (interface_val fuel pj i).
 Proof.
-  intros Ha H Hf. apply (interface_val_gen pj false); auto.
+  intros H Hf. apply (interface_val_gen pj false); auto.
   intros o Ho. apply next_element_total'; assumption.
 Qed.
 
-Theorem interface_doc_total pj : member_arrays_forward pj -> okP false top (interface_doc pj).
+Theorem interface_doc_total_any pj : okP false top (interface_doc pj).
 Proof.
-  intros Ha. apply (interface_doc_gen pj false); auto.
+  apply (interface_doc_gen pj false); auto.
   intros o Ho. apply next_element_total'; assumption.
 Qed.
+
+(* the statements as they were before fix F19 (the hypothesis is no longer needed) *)
+Theorem interface_val_total pj fuel i : member_arrays_forward pj -> iter_ok pj i ->
+  (m i + 1 < fuel)%nat -> okP false top (interface_val fuel pj i).
+Proof. intros _. apply interface_val_total_any. Qed.
+
+Theorem interface_doc_total pj : member_arrays_forward pj -> okP false top (interface_doc pj).
+Proof. intros _. apply interface_doc_total_any. Qed.
